@@ -32,6 +32,8 @@ func runStream(name string, args []string) {
 		streamNl(o)
 	case "sc":
 		streamSc(o)
+	case "rgl":
+		streamRgl(o)
 	case "pl":
 		streamPl(o)
 	case "reg":
